@@ -457,6 +457,9 @@ class ValueGen:
         if k == "uref":
             r = rng.random()
             if r < 0.2 or depth > 5:
+                if self.sw.get("xobj_input") and r < 0.07:
+                    # null, given as a stand-alone (null) union reference object, in the holder's buffer or elsewhere
+                    return {"null_union": "same" if r < 0.045 else "other"}
                 return None
             m = rng.randrange(len(ty["members"]))
             cands = self.avail(ty["members"][m])
@@ -542,6 +545,7 @@ class Materialiser:
 
     def __init__(self, schema, classes, objs, holder_buf):
         self.schema = schema
+        self.helper_allocs = []
         self.classes = classes
         self.objs = objs
         self.holder_buf = holder_buf
@@ -567,7 +571,14 @@ class Materialiser:
             if spec.get("as_obj"):
                 from . import seams
 
-                sobj = seams.xo.String(spec["s"], _context=seams.xo.ContextCpu())
+                if spec.get("obj_cap") and len(spec["s"].encode()) + 1 <= spec["obj_cap"]:
+                    if spec["s"]:
+                        # (text followed by NUL padding: a String object whose capacity exceeds what its text needs)
+                        sobj = seams.xo.String(spec["s"] + "\x00" * (int(spec["obj_cap"]) - len(spec["s"].encode()) - 1), _context=seams.xo.ContextCpu())
+                    else:
+                        sobj = seams.xo.String(int(spec["obj_cap"]), _context=seams.xo.ContextCpu())
+                else:
+                    sobj = seams.xo.String(spec["s"], _context=seams.xo.ContextCpu())
                 return sobj, StrNode(spec["s"], (len(spec["s"].encode()) + 1 + 7) // 8 * 8)
             return spec["s"], StrNode(spec["s"], (len(spec["s"].encode()) + 1 + 7) // 8 * 8)
         if k == "struct":
@@ -625,6 +636,20 @@ class Materialiser:
         if k == "uref":
             if spec is None:
                 return None, URefLeaf(-1, None)
+            if "null_union" in spec:
+                from . import seams
+
+                buf = None
+                if spec["null_union"] == "same" and self.holder_buf is not None:
+                    for o in self.objs:
+                        if o is not None and getattr(o, "bufid", None) == self.holder_buf:
+                            buf = o.buf
+                            break
+                if buf is not None:
+                    u = self.classes[t](None, _buffer=buf)
+                    self.helper_allocs.append((buf, int(u._offset), 16))  # (a helper object of the harness, in a world buffer)
+                    return u, URefLeaf(-1, None)
+                return self.classes[t](None, _context=seams.xo.ContextCpu()), URefLeaf(-1, None)
             m = spec["m"]
             mt = ty["members"][m]
             if "part" in spec:
